@@ -4,6 +4,6 @@ From PV Require Import Base.NpSearch C18.Model C18.Spec C18.Proofs.
 Import ListNotations.
 Open Scope Z_scope.
 
-Theorem C18_dtype_name : forall dt, dtype_ok dt = true -> dtype_of_name (dtype_name dt) = Some dt.
-Proof. exact dtype_name_inv. Qed.
-Print Assumptions C18_dtype_name.
+Theorem C18_keys : forall k, key_ok k = true -> intify_key (stringify_key k) = k.
+Proof. exact intify_stringify. Qed.
+Print Assumptions C18_keys.
